@@ -40,6 +40,11 @@ def run_one(sid: str) -> dict:
         m = re.match(r"\s+VIOLATION property=(C\d\d) replay=\S*/([^/\s]+)\.json(.*)", line)
         if m:
             sigs.setdefault(m.group(1), []).append(m.group(2) + (" [no-failing-input-found]" if "no-failing" in m.group(3) else ""))
+    # a check that only says "the Lean build is broken" (someone is editing the proofs) has detected nothing
+    real = [c for c in det if any(not x.startswith("unproved_lean-build") for x in sigs.get(c, ["?"]))]
+    if len(real) != len(det):
+        meta.setdefault("notes", []).append(f"{time.strftime('%Y-%m-%d %H:%M')}: lean-build noise ignored for {sorted(set(det) - set(real))}")
+    det = real
     meta["detected_by_quick_tier"] = det
     meta["last_run"] = {"when": time.strftime("%Y-%m-%d %H:%M"), "checks": checks,
                         "repo_commit": subprocess.check_output(["git", "-C", "/repo", "log", "--oneline", "-1"]).decode().split()[0],
@@ -59,7 +64,8 @@ def write_table():
         fs = (m.get("last_run") or {}).get("first_signatures") or {}
         if det and fs.get(det[0]):
             sig = fs[det[0]][0]
-        rows.append((m["id"], m["breaks_property"], ", ".join(det) if det else "**missed**",
+        status = ", ".join(det) if det else ("superseded (see meta.json)" if m.get("superseded") else "**missed**")
+        rows.append((m["id"], m["breaks_property"], status,
                      "yes" if m.get("missed_when_first_run") else "no", sig[:70],
                      m.get("needs_to_manifest", "")[:150], m.get("strengthening_after_miss", "")))
     lines = ["# Seeded changes", "",
@@ -74,10 +80,12 @@ def write_table():
     for r in rows:
         lines.append("| " + " | ".join(str(x).replace("|", "/") for x in r) + " |")
     n = len(rows)
-    nd = sum(1 for r in rows if r[2] != "**missed**")
+    nd = sum(1 for r in rows if r[2] != "**missed**" and not r[2].startswith("superseded"))
+    ns = sum(1 for r in rows if r[2].startswith("superseded"))
     nm = sum(1 for r in rows if r[3] == "yes")
-    lines += ["", f"{nd} of {n} are reported by the quick tier now; {nm} of them were missed when first run and led to the "
-              "strengthening in the last column (never to a change of the seeded patch)."]
+    lines += ["", f"{nd} of {n} are reported by the quick tier now ({ns} superseded by later fixes of /repo: their patch no longer "
+              f"applies or has no observable effect); {nm} were missed when first run and led to the strengthening in the last "
+              "column (never to a change of the seeded mutation; two patches were re-based onto fixed code, noted in their row)."]
     (SEEDED / "README.md").write_text("\n".join(lines) + "\n")
 
 
